@@ -229,6 +229,13 @@ class _Parser(object):
 
     def parse(self, expression):
         """Parse a MongoDB expression."""
+        if isinstance(expression, (list, tuple)):
+            # An array literal: every element is an expression, a missing field reads as null.
+            return [
+                None if value is NOTHING else value
+                for value in (self._parse_or_nothing(item) for item in expression)
+            ]
+
         if not isinstance(expression, dict):
             # May raise a KeyError despite the ignore missing key.
             return self._parse_basic_expression(expression)
